@@ -1118,12 +1118,22 @@ class Event(Boolean):
 
     @instance_descriptor
     def __set__(self, obj, val):
+        installed = True
         try:
             if self._mode in ['set-reset', 'set']:
                 super().__set__(obj, val)
+        except BaseException:
+            # raised by a watcher, or was the assignment itself refused
+            # (then nothing was installed and there is nothing to reset)?
+            if obj is None:
+                current = self.default
+            else:
+                current = obj._param__private.values.get(self.name, self.default)
+            installed = current is val
+            raise
         finally:
             # also when a watcher raises: an Event always resets itself
-            if self._mode in ['set-reset', 'reset']:
+            if installed and self._mode in ['set-reset', 'reset']:
                 self._reset_event(obj, val)
 
 #-----------------------------------------------------------------------------
